@@ -16,9 +16,9 @@ enum { A_TRACK, A_TAGGED, A_ARENA };
 enum { K_INT, K_BSTR, K_TSTR, K_DARR, K_IARR, K_DMAP, K_IMAP, K_TAG, K_IBS, K_ITS, K_FLOAT, K_NKINDS };
 static const char* const kind_names[K_NKINDS] = {"int", "bytes", "text", "def-array", "indef-array", "def-map", "indef-map", "tag", "chunked-bytes", "chunked-text", "float"};
 enum { OP_NEW = 1, OP_INCREF, OP_DECREF, OP_IDECREF, OP_PUSH, OP_SET, OP_REPLACE, OP_GET, OP_MAPADD, OP_ADDCHUNK, OP_TAGSET, OP_TAGITEM,
-       OP_BUILDTAG, OP_COPY, OP_LOAD, OP_SERIALIZE, OP_MOVEPUSH, OP_DESCRIBE, OP_NOPS };
+       OP_BUILDTAG, OP_COPY, OP_LOAD, OP_SERIALIZE, OP_MOVEPUSH, OP_DESCRIBE, OP_REHANDLE, OP_NOPS };
 static const char* const op_names[OP_NOPS] = {"?", "new", "incref", "decref", "intermediate_decref", "push", "set", "replace", "get", "map_add", "add_chunk",
-  "tag_set_item", "tag_item", "build_tag", "copy", "load", "serialize", "push(move)", "describe"};
+  "tag_set_item", "tag_item", "build_tag", "copy", "load", "serialize", "push(move)", "describe", "set_handle(same block)"};
 
 struct mnode { uint8_t alive, kind, cap, nmem; int8_t mem[MAXMEM]; };
 struct mstate { struct mnode n[MAXN]; int nn; int8_t slot[NSLOT]; uint8_t hold[NSLOT]; };
@@ -226,6 +226,9 @@ static int m_apply(struct mstate* m, struct op o, bool allow_oob) {
     case OP_SERIALIZE: case OP_DESCRIBE:
       if (a < 0 || !m_complete(m, a)) return -1;
       return 1;
+    case OP_REHANDLE: /* re-attach the block the string already owns (in-place edit / truncation): ownership unchanged */
+      if (a < 0 || (m->n[a].kind != K_BSTR && m->n[a].kind != K_TSTR)) return -1;
+      return 1;
   }
   return -1;
 }
@@ -379,6 +382,21 @@ static int r_apply(const struct mstate* pre, const struct mstate* post, struct o
     case OP_DESCRIBE:
       cbor_describe(rslot[o.a], devnull); /* stdio may allocate for itself: not bracketed as "inside libcbor" */
       return 1;
+    case OP_REHANDLE: {
+      cbor_item_t* it = rslot[o.a];
+      if (cbor_isa_bytestring(it)) {
+        size_t len = cbor_bytestring_length(it);
+        unsigned char* h = cbor_bytestring_handle(it);
+        if (h && len) h[0] ^= 0x01;
+        LIB(cbor_bytestring_set_handle(it, h, (o.b & 1) && len ? len - 1 : len)); LIBEND();
+      } else {
+        size_t len = cbor_string_length(it);
+        unsigned char* h = cbor_string_handle(it);
+        if (h && len) h[0] = (unsigned char)('a' + (o.b % 26));
+        LIB(cbor_string_set_handle(it, h, (o.b & 1) && len ? len - 1 : len)); LIBEND();
+      }
+      return 1;
+    }
   }
   return -2;
 }
@@ -390,7 +408,7 @@ static void render_history(const struct op* ops, int n, struct vh_buf* out) {
     if (o.code & 0x80) { vb_printf(out, "[allocator refuses everything] "); o.code &= 0x7f; }
     switch (o.code) {
       case OP_NEW: vb_printf(out, "s%d=new(%s%s%.0d)", o.a, kind_names[o.b < K_NKINDS ? o.b : 0], (o.b == K_DARR || o.b == K_DMAP) ? " cap " : "", (o.b == K_DARR || o.b == K_DMAP) ? o.c : 0); if ((o.b == K_DARR || o.b == K_DMAP) && o.c == 0) vb_printf(out, "0"); break;
-      case OP_INCREF: case OP_DECREF: case OP_IDECREF: case OP_SERIALIZE: case OP_DESCRIBE: vb_printf(out, "%s(s%d)", op_names[o.code], o.a); break;
+      case OP_INCREF: case OP_DECREF: case OP_IDECREF: case OP_SERIALIZE: case OP_DESCRIBE: case OP_REHANDLE: vb_printf(out, "%s(s%d)", op_names[o.code], o.a); break;
       case OP_PUSH: case OP_MOVEPUSH: case OP_ADDCHUNK: vb_printf(out, "%s(s%d, s%d)", op_names[o.code], o.a, o.b); break;
       case OP_SET: case OP_REPLACE: vb_printf(out, "%s(s%d, %d, s%d)", op_names[o.code], o.a, o.b, o.c); break;
       case OP_GET: vb_printf(out, "s%d=get(s%d, %d)", o.c, o.a, o.b); break;
@@ -623,6 +641,7 @@ static int gen_ops(const struct mstate* m, struct op* out, int maxout, int nslot
     ADD(OP_DECREF, s, 0, 0);
     if (m->hold[s] > 1 || m_indeg(m, node) > 0) ADD(OP_IDECREF, s, 0, 0);
     ADD(OP_SERIALIZE, s, 0, 0);
+    if (kind == K_BSTR || kind == K_TSTR) ADD(OP_REHANDLE, s, 1, 0);
     if (lowest_empty >= 0) { ADD(OP_COPY, s, lowest_empty, 0); ADD(OP_BUILDTAG, s, lowest_empty, 0); }
     for (int x = 0; x < nslots; x++) {
       if (m->slot[x] < 0) continue;
@@ -685,7 +704,7 @@ static void random_history(uint64_t u, int maxlen, bool allow_oob) {
     else if (pick < 82) o.code = OP_COPY;
     else if (pick < 84) { o.code = OP_LOAD; o.b = (uint8_t)vh_below(&r, NLOADS); }
     else if (pick < 87) o.code = OP_SERIALIZE;
-    else if (pick < 88) o.code = OP_DESCRIBE;
+    else if (pick < 88) { o.code = vh_below(&r, 2) ? OP_DESCRIBE : OP_REHANDLE; }
     else if (pick < 92) o.code = OP_INCREF;
     else if (pick < 98) o.code = OP_DECREF;
     else o.code = OP_IDECREF;
